@@ -6,9 +6,11 @@ export GOFLAGS=-mod=mod GOPROXY=off GOSUMDB=off GOTOOLCHAIN=local GOWORK=off
 tier=${2:-quick}
 if [ "$tier" = thorough ]; then
   # same rules under two build configurations (amd64, 386), then checker validation both ways: sensitivity on the mutant
-  # corpus and on the independent seeded changes, silence on the behaviour-preserving controls
+  # corpus and on the independent seeded changes, silence on the behaviour-preserving controls, mutants on top of controls
   bin/pv check -repo /repo -verif "$(pwd)" -tier thorough "$1"; rc=$?
   python3 tools/selftest.py -q --full "$1"
+  # sensitivity under refactoring: each mutant of this property on top of behaviour-preserving controls
+  python3 tools/cross.py -j 8 3 "$1"
   [ -f out/crossref.txt ] || tools/crossref.sh >/dev/null 2>&1
   exit $rc
 fi
